@@ -36,10 +36,8 @@ def run(ctx, anchors=None):
     ctx.rule("R12.3", "one marker advance per script switch; the listing enters the P2SH section under the stepper's predicate")
     ctx.rule("R12.4", "position counter: +1 per successful operation step, -1 per accepted rewind (shared with C04 R04.2)")
     ctx.rule("R12.5", "the marker / echoed line are indexed by the position counter and bounded by the line count")
-    mains = [f for f in fb.funcs.values() if f.d.get("main") and f.file == "btcdeb.cpp"]
-    if not mains:
-        raise AnalysisBroken("btcdeb main not found")
-    main = mains[0]
+    from . import common
+    main = common.func_calling(fb, "btcdeb.cpp", "ContinueScript")
     cfg = main.cfg()
     # ---- R12.1
     pushes = [n for n in main.nodes() if n["k"] == "mcall" and n.get("n") == "push_back" and astq.estr(n.get("obj")) == "script_ptrs"]
@@ -160,14 +158,16 @@ def run(ctx, anchors=None):
     # ---- R12.3
     sal = astq.aliases(stepper)
     scfg = stepper.cfg()
-    switches = [n for n in stepper.nodes() if n["k"] == "opcall" and n["op"] == "=" and any(p[1:] == ("script",) for p in astq.paths(n["args"][0], sal))]
+    from . import common
+    switches = common.script_switches(prog, stepper)
     ctx.floor("R12.3", len(switches), 2, "script switches in the stepper")
-    seq_incs = [n for n in stepper.nodes() if n["k"] == "un" and n["op"] == "++" and any(p[1:] == ("curr_op_seq",) for p in astq.paths(n["e"], sal))]
+    seq_incs = common.field_writers(prog, stepper, "curr_op_seq")
+    seq_incs = [n for n in seq_incs if not any(S.contains(a, n) and a.get("k") == "switch" for a in stepper.ancestors(n))]
     for swn in switches:
         ctx.site()
-        after = [i for i in seq_incs if scfg.position(i) and scfg.position(swn) and (scfg.position(i)[0] in scfg.reachable_from(scfg.position(swn)[0]))
-                 and not scfg.dominates(i, swn)]
-        must = scfg.must_pass_after(swn, seq_incs)
+        after = [i for i in seq_incs if i is swn or (scfg.position(i) and scfg.position(swn) and (scfg.position(i)[0] in scfg.reachable_from(scfg.position(swn)[0]))
+                 and not scfg.dominates(i, swn))]
+        must = (swn in seq_incs) or scfg.must_pass_after(swn, seq_incs)
         ctx.inst(must and len(after) == 1, "R12.3", "advance-at-switch:" + astq.estr(swn)[:40], stepper.loc(swn),
                  "the script switch advances the marker exactly once (over the section header line)",
                  "the script switch `%s` advances the marker %s: the marker no longer passes the section header line in step with execution"
